@@ -101,8 +101,10 @@ def check_property(pid, tier, only_group=None, only_unit=None, verbose=False):
             jobs.append((spec, dict(u)))
             if tier == 'thorough' and u.get('mode', 'contract') != 'bounded' and not u.get('no_second_backend'):
                 u2 = dict(u)
-                u2['name'] = u['name'] + '@cadical'
-                u2['flags'] = list(u.get('flags', [])) + ['--sat-solver', 'cadical']
+                other = 'minisat2' if u.get('solver', spec.get('solver')) == 'cadical' else 'cadical'
+                u2['name'] = u['name'] + '@' + other
+                u2['flags'] = list(u.get('flags', [])) + ['--sat-solver', other]
+                u2['timeout'] = 1800
                 u2['_second'] = True
                 jobs.append((spec, u2))
     results = []
@@ -179,7 +181,7 @@ def check_property(pid, tier, only_group=None, only_unit=None, verbose=False):
                     if not any(s['obligation'] == ob['name'] for s in samples):
                         samples.append(dict(unit=r['name'], obligation=ob['name'], status=ob['status']))
         else:
-            row['label'] = 'second back end (CaDiCaL) agreement run'
+            row['label'] = 'second back end agreement run'
             bounded.append(row)
         real_P = []
         for ob in fails_P:
